@@ -75,8 +75,11 @@ func c01BufferWriters(c *core.Ctx) {
 	c.Need(R, "mutations of socket.writeBuffer", n, 3)
 }
 
-func c01TakeAndSend(c *core.Ctx) {
-	const R = "C01.2"
+func c01TakeAndSend(c *core.Ctx) { takeAndSend(c, "C01.2") }
+
+// takeAndSend (C01.2 = C08.9 = C18.9): the batch is taken, announced and handed to the session's CURRENT transport
+// (re-read at the hand-off: an upgrade may have switched it since flush tested writability) as one value.
+func takeAndSend(c *core.Ctx, R string) {
 	c.Rule(R, "in flush, writeBuffer.AllAndClear() and Transport().Send(…) both run with flushMu held (one drainer at a time) and the slice handed to Send is exactly the value that AllAndClear returned (no filtering, re-slicing or reordering in between)")
 	u := c.Fn(R, sockFlush)
 	if u == nil {
